@@ -20,6 +20,9 @@ FLOORS.update({"op:" + o: 250 for o in OPS})
 FLOORS["op:ref-to-nested-part-then-rebind"] = 60
 FLOORS["op:set-ref-null-then-same"] = 150
 FLOORS["op:derive-extended-class"] = 150
+FLOORS["families_with_limited_array_attributes"] = 300
+FLOORS["forced_moves_of_objects_with_references"] = 100
+FLOORS["limited_array_attribute_assignments"] = 100
 RULE = ("generated hybrid class families (2-3 levels: scalars, strings, numeric arrays of any shape, nested hybrids, "
         "references to hybrids, renamed fields) in two buffers; histories of <=20 steps over {set scalar/string/array/"
         "array element (also inside nested dressed parts), assign dressed object to a nested field (same/other buffer), "
@@ -58,7 +61,9 @@ def subobjects(t):
 
 def run_case(w, rng):
     levels = rng.choice([1, 1, 2])
-    specs, outer = gen_family(rng, levels=levels, defaults=rng.random() < 0.4)
+    specs, outer = gen_family(rng, levels=levels, defaults=rng.random() < 0.4, lim_p=0.2, force_p=0.25)
+    if any("lim" in s_ for s_ in specs):
+        w.count("families_with_limited_array_attributes")
     if levels == 2:
         w.count("three_level_families")
     vg = ValGenH(rng)
@@ -158,6 +163,24 @@ def _set_model(t, xp, xn, val):
     mv[xn] = val
 
 
+def _dup_refs(w, tracked, nt, counter):
+    """Model of an object that was rebuilt in another buffer: every reference in it (and in its nested parts and in
+    the duplicates themselves) now denotes a duplicate of the former referent."""
+    def dup(spec, mv):
+        for xn, pn, kind, sub, _dd in spec["fields"]:
+            if kind == "nested":
+                dup(sub, mv[xn])
+            elif kind == "ref" and mv[xn] is not None:
+                o = tracked[mv[xn]]
+                k = max(tracked) + 1
+                m2 = copy_model(sub, o.mv)
+                tracked[k] = T(k, sub, m2, None, nt.env)
+                dup(sub, m2)
+                mv[xn] = k
+                w.count(counter)
+    dup(nt.spec, nt.mv)
+
+
 def _step(w, rng, vg, op, tracked, envs, specs, outer, new_obj, hist, viol):
     def fields_of(spec, kind):
         return [f for f in spec["fields"] if f[2] == kind]
@@ -182,12 +205,23 @@ def _step(w, rng, vg, op, tracked, envs, specs, outer, new_obj, hist, viol):
             setattr(obj, pn, v)
         elif op == "set-array":
             v = vg.array(sub[0], sub[1], mv[xn].shape)
+            lim = spec.get("lim")
+            if lim is not None:
+                # only the exposed part is assigned (and changes)
+                full = mv[xn].copy()
+                full[:lim] = v[:lim]
+                v = v[:lim]
             setattr(obj, pn, v.copy() if rng.random() < 0.5 else (v.tolist() if 0 not in v.shape else v.copy()))
+            if lim is not None:
+                v = full
+                w.count("limited_array_attribute_assignments")
         else:
-            if mv[xn].size == 0:
+            lim = spec.get("lim")
+            exposed = mv[xn] if lim is None else mv[xn][:lim]
+            if exposed.size == 0:
                 return False
             v = mv[xn].copy()
-            idx = tuple(rng.randrange(s) for s in v.shape)
+            idx = tuple(rng.randrange(s) for s in exposed.shape)
             v[idx] = vg.scalar(sub[0])
             getattr(obj, pn)[idx] = v[idx]
         _set_model(t, xp, xn, v)
@@ -315,7 +349,7 @@ def _step(w, rng, vg, op, tracked, envs, specs, outer, new_obj, hist, viol):
             if t2.dead or t2.obj is None:
                 continue
             for pp2, xp2, spec2, mv2, obj2 in subobjects(t2):
-                if pp2 and spec2 is sub and obj2._buffer is obj._buffer and obj2 is not obj:
+                if pp2 and spec2 is sub and obj2._buffer is obj._buffer and obj2 is not obj and not spec2.get("force_moveable"):
                     parts.append((t2, pp2, mv2, obj2))
         if not parts:
             return False
@@ -384,19 +418,7 @@ def _step(w, rng, vg, op, tracked, envs, specs, outer, new_obj, hist, viol):
         tracked[n] = nt
         if c._buffer is not t.obj._buffer and has_ref(t.spec):
             # the copy lives in another buffer: each of its references denotes a duplicate of the referent there
-            def dup(spec, mv):
-                for xn, pn, kind, sub, _dd in spec["fields"]:
-                    if kind == "nested":
-                        dup(sub, mv[xn])
-                    elif kind == "ref" and mv[xn] is not None:
-                        o = tracked[mv[xn]]
-                        k = max(tracked) + 1
-                        m2 = copy_model(sub, o.mv)
-                        tracked[k] = T(k, sub, m2, None, nt.env)
-                        dup(sub, m2)
-                        mv[xn] = k
-                        w.count("copy_duplicated_referent")
-            dup(nt.spec, nt.mv)
+            _dup_refs(w, tracked, nt, "copy_duplicated_referent")
             for pp, xp, spec, mv, obj in subobjects(nt):
                 for xn, pn, kind, sub, _dd in spec["fields"]:
                     if kind == "ref" and mv[xn] is not None:
@@ -411,11 +433,13 @@ def _step(w, rng, vg, op, tracked, envs, specs, outer, new_obj, hist, viol):
         return True
     if op == "move":
         cand = [x for x in tracked.values() if not x.dead and x.obj is not None and x.nested_of is None and not x.referenced
-                and not has_ref(x.spec)]
+                and (not has_ref(x.spec) or x.spec.get("force_moveable"))]
         if not cand:
             return False
-        t = rng.choice(cand)
+        forced = [x for x in cand if has_ref(x.spec)]
+        t = rng.choice(forced) if forced and rng.random() < 0.6 else rng.choice(cand)
         env = [e for e in envs if e is not t.env][0]
+        old_buf = t.obj._buffer
         if rng.random() < 0.7:
             t.obj.move(_buffer=env.buf)
             if t.obj._buffer is not env.buf:
@@ -430,7 +454,19 @@ def _step(w, rng, vg, op, tracked, envs, specs, outer, new_obj, hist, viol):
                 viol("move-left-nested-part-behind", f"nested part {'.'.join(pp)} lives in another buffer")
         if env is not None:
             t.env = env
-        hist.append([op, f"#{t.i}"])
+        if has_ref(t.spec):
+            # a class that declares _force_moveable: the object is rebuilt in the other buffer like a copy, its
+            # references denote duplicates there; the attributes must go on mirroring the (new) buffer data
+            w.count("forced_moves_of_objects_with_references")
+            if t.obj._buffer is not old_buf:
+                _dup_refs(w, tracked, t, "forced_move_duplicated_referent")
+            for pp, xp, spec, mv, obj in subobjects(t):
+                for xn, pn, kind, sub, _dd in spec["fields"]:
+                    if kind == "ref" and mv[xn] is not None:
+                        ref = getattr(obj, pn)
+                        if ref is not None and ref._buffer is not t.obj._buffer:
+                            viol("reference-of-moved-object-resolves-outside-its-buffer", f"{'.'.join(pp + [pn])}")
+        hist.append([op, f"#{t.i}", "forced" if has_ref(t.spec) else ""])
         return True
     if op == "move-refused-nested":
         pick = _pick_sub(rng, tracked, lambda s: True)
@@ -439,7 +475,7 @@ def _step(w, rng, vg, op, tracked, envs, specs, outer, new_obj, hist, viol):
             if t.dead or t.obj is None:
                 continue
             for pp, xp, spec, mv, obj in subobjects(t):
-                if pp:
+                if pp and not spec.get("force_moveable"):
                     cands.append((t, pp, obj))
         if not cands:
             return False
@@ -454,7 +490,7 @@ def _step(w, rng, vg, op, tracked, envs, specs, outer, new_obj, hist, viol):
         return True
     if op == "move-refused-refs":
         cand = [x for x in tracked.values() if not x.dead and x.obj is not None and has_ref(x.spec) and
-                any(f[2] == "ref" for f in x.spec["fields"])]
+                any(f[2] == "ref" for f in x.spec["fields"]) and not x.spec.get("force_moveable")]
         if not cand:
             return False
         t = rng.choice(cand)
